@@ -20,7 +20,13 @@ import vlib
 import histlib
 
 LAST_INDEX_COVERAGE = {}
-# the 65535-entry node through vm_compute (write + read + 1.5 MB file comparison): measured below 10 s -> quick tier too
+# The capacity boundary (65535 / 65536 entries).  Measured: the list-based model reader is quadratic in the node size
+# (rd_le / slice_from skip from the start of the 1.5 MB node for every key), a 65535-entry node does not finish
+# under vm_compute in 10 minutes - in no tier.  So: Go runs all three long cases in both tiers (milliseconds) and is
+# checked against the Python specification (65535 entries written and read back value-exact; a foreign full node
+# parses; 65536 entries refused with file and allocator untouched); the MODEL is evaluated on the refusal (linear:
+# write_index_st only counts) and on the per-entry loop up to 300 (quick) / 3000 (thorough) entries; the step from
+# there to every n <= 65535 is theorem C01_index_roundtrip, not evaluation.
 LONG_IN_QUICK = True
 
 EXT = [1, 2, 3, 5, 7, 8, 13, 16, 17, 31]
@@ -277,16 +283,12 @@ def source_switch():
     def src(rel):
         return open(os.path.join(vlib.REPO, rel)).read()
     rd, wr, ds = src("internal/core/btree_v1.go"), src("internal/structures/btree_chunk.go"), src("dataset_write_chunked.go")
-    m = re.search(r"node\.Keys = make\(\[\]ChunkKey, ([^)]*(?:\([^)]*\))?[^)]*)\)", rd)
-    if not m:
-        raise RuntimeError("c01unit: cannot find the allocation of node.Keys in internal/core/btree_v1.go")
-    size = m.group(1).replace(" ", "")
-    if size == "int(node.EntriesUsed)+1":
+    if "node.Keys = make([]ChunkKey, int(node.EntriesUsed)+1)" in rd:
         reader = True
-    elif size == "node.EntriesUsed+1":
+    elif "node.Keys = make([]ChunkKey, node.EntriesUsed+1)" in rd:
         reader = False
     else:
-        raise RuntimeError("c01unit: unknown size expression of node.Keys: %s" % m.group(1))
+        raise RuntimeError("c01unit: cannot find the allocation of node.Keys in internal/core/btree_v1.go (neither the repaired nor the old form)")
     mc = re.search(r"const MaxChunkBTreeEntries = (\d+)", wr)
     wt = wr[wr.index("func (w *ChunkBTreeWriter) WriteToFile("):]
     wt = wt[:wt.index("\n}\n")]
@@ -628,6 +630,7 @@ def run_unit(ctx):
 
     iw_terms, iw_idx, iw_weight = [], [], []
     iwl_terms, iwl_idx = [], []
+    long_go_only = []
     raw_bases = []
     max_entries = 0
     for i, (c, r) in enumerate(zip(cases, res)):
@@ -683,6 +686,9 @@ def run_unit(ctx):
             if len(samples) < 7 and len(ents) in (3, 33) and dim >= 2:
                 samples.append(dict(mode="index", dim=dim, cdims=cdims, entries=ents[:3], n=len(ents), root=r["root"], read=rd["entries"][:3]))
         if "panic" in r:
+            continue
+        if c.get("long") and r.get("wok"):
+            long_go_only.append("%d entries written and read back by Go, equal to the Python specification" % len(ents))
             continue
         if c.get("long"):
             wr = compress_runs(ents, lambda e: e["coord"], lambda e: e["addr"], lambda a, b: a["nbytes"] == b["nbytes"])
@@ -791,6 +797,9 @@ def run_unit(ctx):
         rd = r.get("read", {})
         fb = bytes.fromhex(c["file"])
         if c.get("long"):
+            long_go_only.append("foreign node with entries used = 65535: Go class %d, %d entries, equal to the Python specification" % (k, len(rd.get("entries") or [])))
+            continue
+        if c.get("long") and False:      # kept for a faster model reader: the run-length transport of the Go entries (irl_ok)
             gr = compress_runs(rd.get("entries") or [], lambda e: e["scaled"], lambda e: e["addr"], lambda a, b: (a["nbytes"], a["mask"]) == (b["nbytes"], b["mask"]))
             gs = "[" + ";".join("((%s,%d,%d,%d),%d,%d,%d)" % (cl(e["scaled"]), e["nbytes"], e["mask"], e["addr"], dh, da, n) for e, dh, da, n in gr) + "]"
             groups.append(("Definition irl_%d : list irlcase := [(%s,%d,%d,%d,%d%%nat,%s,%d,%s)].\n" % (j, pk(fb), c["ztail"], c["root"], c["osz"], c["ndims"], cl(c["cdims"]), k, gs)
@@ -872,7 +881,7 @@ def run_unit(ctx):
     LAST_INDEX_COVERAGE = dict(index_cases=len(iw_terms), max_entries=max_entries, malformed_cases=sum(malformed.values()),
                                malformed_classes=dict(ok=malformed[0], err=malformed[1], panic=malformed[2]), tree_cases=len(tree_cases),
                                entries_used_65535_classes=used65535, repair_switch_from_source=repaired,
-                               long_cases=len(iwl_terms) + sum(1 for c in raw_cases if c.get("long")),
+                               long_cases_model=len(iwl_terms), long_cases_go_only=long_go_only,
                                entry_counts=sorted({len(c["entries"]) for c in idxc}),
                                ranks=sorted({c["dim"] for c in idxc}), unit_wall_s=round(time.time() - t0, 1))
     return dict(violations=viol, violations_total=nviol, evaluations=evaluations, distinct=len(distinct), samples=samples[:8], known=known,
@@ -880,7 +889,7 @@ def run_unit(ctx):
                 index_cases=len(iw_terms), max_entries=max_entries, malformed_cases=sum(malformed.values()),
                 malformed_classes=dict(ok=malformed[0], err=malformed[1], panic=malformed[2]), tree_cases=len(tree_cases),
                 entries_used_65535_classes=used65535, repair_switch_from_source=repaired,
-                long_cases=len(iwl_terms) + sum(1 for c in raw_cases if c.get("long")),
+                long_cases_model=len(iwl_terms), long_cases_go_only=long_go_only,
                 coq_seconds=round(coq_s, 1), wall_s=round(time.time() - t0, 1),
                 distribution=dict(tile=len(tile), resize=len(resize), conv_buffers=len(conv), enc_buffers=len(enc),
                                   ranks={k: sum(1 for c in tile + resize if len(c["dims"]) == k) for k in (1, 2, 3, 4)},
